@@ -86,39 +86,26 @@ RULES = {
 }
 
 
+def sharded(flavour, engine, args, n, seed, mod=None, **kw):
+    """n processes of an enumerating engine, each taking the outer cases k with k % mod == rem"""
+    mod = mod or n
+    return [eng(flavour, engine, list(args) + ["--mod", mod, "--rem", (i * (mod // n) + (seed % max(1, mod // n))) % mod], 1, seed + i, **kw) for i in range(n)]
+
+
 def plan_for(prop, tier, seed):
     quick = tier == "quick"
     n = int(prop[1:])
     p = {"level": "exploration", "assumptions": list(ASSUME_COMMON), "decides": {n}, "sanitizer_decides": True,
          "rule": RULES.get(n, ""), "primary": n}
+    MT = dict(weight=10, timeout=1500 if quick else 10000)
     if n == 1:
         p["jobs"] = explore_mix(["default", "sharing", "static", "fillcap"], tier, seed)
     elif n == 2:
         p["jobs"] = explore_mix(["sharing", "static", "errorpath", "shrink"], tier, seed)
     elif n == 3:
         p["jobs"] = explore_mix(["default", "sharing", "errorpath", "shrink"], tier, seed, asan=True, memcheck=True)
-    elif n == 7:
-        p["jobs"] = explore_mix(["errorpath", "sharing"], tier, seed, q_hist=1000)
-    elif n == 8:
-        p["jobs"] = explore_mix(["sharing", "static", "default"], tier, seed, q_hist=1000)
-    elif n == 9:
-        p["jobs"] = explore_mix(["inline", "default"], tier, seed, q_hist=1500)
-    elif n == 10:
-        p["jobs"] = explore_mix(["static"], tier, seed, q_hist=1500)
-    elif n == 11:
-        p["jobs"] = explore_mix(["fillcap", "default", "sharing"], tier, seed, q_hist=1000)
-    elif n == 12:
-        p["jobs"] = explore_mix(["fillcap", "default", "static"], tier, seed, q_hist=1000, miri=False)
-        p["sanitizer_decides"] = False
-    elif n == 13:
-        p["jobs"] = explore_mix(["shrink", "sharing"], tier, seed, q_hist=1500, miri=False)
-        p["sanitizer_decides"] = False
-    elif n == 17:
-        p["jobs"] = explore_mix(["default", "sharing", "static"], tier, seed, q_hist=700, miri=True)
-        for j in p["jobs"]:
-            j["args"] += ["--cmp-every", "2"]
     elif n == 4:
-        p["rule"] = ("random programs from the property's grammar: one heap buffer (17-64 bytes, optional spare capacity), 2-3 threads (the main thread is one of them) each owning a clone (optionally pre-truncated) or borrowing &LeanString, each running 1-4 ops from {clone, clone_from, to_lean_string, drop, read, push, push_str, insert, insert_str, remove, retain, truncate, pop, clear, reserve, shrink_to}; released from one start barrier; yields injected at the hook points between the uniqueness test / decrement and the access they guard. Oracle for races/UAF/leaks: Miri (vector clocks + weak-memory emulation), several -Zmiri-seed and preemption rates; oracle for values: one String model per thread; exactly-once release: alloc count == dealloc count after all handles are dropped. evaluations = executions; distinct_nontrivial = distinct observed interleavings, i.e. distinct sequences of (thread, hook site) per program as recorded by the Relaxed trace log")
+        p["rule"] = RULE_C04
         p["assumptions"] += ["Miri's scheduler and its store-buffer emulation SAMPLE schedules and visibility orders; 'every schedule' is not covered and not claimed",
                              "native runs on x86-TSO cannot exhibit ordering bugs; they are used only for actual double free / use-after-free / leak timing through the shadow heap",
                              "ThreadSanitizer is not used: it does not model fence(Acquire) and reports a race on the correct drop protocol"]
@@ -137,12 +124,149 @@ def plan_for(prop, tier, seed):
         jobs.append(eng("native-rel", "conc", ["--shim", "shadow", "--programs", 1500 if quick else 20000, "--execs", 10 if quick else 40, "--spin", 200], 8, seed, weight=3))
         jobs.append(eng("native-dbg", "conc", ["--shim", "shadow", "--programs", 300 if quick else 4000, "--execs", 10, "--spin", 50], 4, seed, weight=3))
         p["jobs"] = jobs
+    elif n == 5:
+        p["level"] = "fault_enumeration"
+        p["rule"] = ("for each generated history (profiles sharing/default/static/errorpath/shrink, closed-loop) the crate's allocation+reallocation requests are counted in a clean run (N), then the history is re-run once per k in 1..=N with request k failing (thorough: also pairs (k,k+1..3)); both try_ and plain forms occur (plain under catch_unwind, panic message compared with ReserveError's text). After the failed call: value unchanged (iterator-driven ops: before + prefix of items), other handles unchanged, refcount/heap accounting exact; the history continues to its end and the heap must be empty. Extra: random single-step faults in errorpath histories. evaluations = failed calls judged; distinct_nontrivial = distinct (op, storage kind, sharing class, failed/refused) signatures of failed calls")
+        jobs = [eng("native-rel", "faults", ["--shim", "shadow", "--histories", 60 if quick else 1200, "--steps", 50] + ([] if quick else ["--pairs"]), 16, seed, weight=3),
+                eng("native-dbg", "faults", ["--shim", "shadow", "--histories", 15 if quick else 150, "--steps", 50], 8, seed + 1, weight=3)]
+        jobs += [eng("miri", "faults", ["--histories", 1 if quick else 8, "--steps", 14], 16, seed + 2, **MT)]
+        if not quick:
+            jobs += [eng("asan", "faults", ["--histories", 100, "--steps", 50], 8, seed + 3, weight=4)]
+        jobs += [ex("native-rel", "errorpath", 800 if quick else 40000, 120, 8, seed + 4, weight=2)]
+        p["jobs"] = jobs
+        p["decides"] = {5}
+    elif n == 6:
+        p["rule"] = ("the size table V = {0,1,15,16,17} U {2^i, 2^i+-1, 2^i+-2 : i<64} U {2^56-1+-2, isize::MAX+-2, usize::MAX-2..} (and v-len) is run COMPLETELY against 9 entry points (try_/with_capacity, try_/reserve, try_/shrink_to, extend<char> and collect<char> with that size_hint lower bound, extend<&str>) in 10 target states (inline empty/short/16, static, static truncated, heap unique exact/spare, heap shared same/shorter/longer), followed by pushes/pops/retains on the target and its siblings; requests above 256 MiB are refused by the shim deterministically. Ok => postcondition (capacity>=need, exclusive ownership); Err/alloc-panic => value, siblings, refcounts, heap unchanged; any other panic (overflow) or abort is a violation. Same values are injected at random points of errorpath histories. distinct_nontrivial = distinct (value, variant, state, entry point) cases + failed-call signatures")
+        jobs = [eng("native-rel", "sizes", ["--shim", "shadow"], 1, seed, weight=3),
+                eng("native-dbg", "sizes", ["--shim", "shadow"], 1, seed + 1, weight=3)]
+        jobs += sharded("miri", "sizes", ["--boundary-only", "--stride", 24 if quick else 4], 16, seed + 2, **MT)
+        jobs += [ex("native-rel", "errorpath", 600 if quick else 30000, 120, 6, seed + 4, weight=2),
+                 ex("native-dbg", "errorpath", 100 if quick else 3000, 120, 4, seed + 5, weight=2)]
+        if not quick:
+            jobs += [eng("asan", "sizes", [], 1, seed + 6, weight=4)]
+        p["jobs"] = jobs
+        p["exhaustive_when"] = "sizes"
+    elif n == 7:
+        jobs = [eng("native-rel", "indices", ["--shim", "shadow", "--max-chars", 6, "--sample-pct", 6 if quick else 100], 8 if quick else 1, seed, weight=3),
+                eng("native-dbg", "indices", ["--shim", "shadow", "--max-chars", 4, "--sample-pct", 20 if quick else 100], 4 if quick else 1, seed + 1, weight=3)]
+        if not quick:
+            jobs = sharded("native-rel", "indices", ["--shim", "shadow", "--max-chars", 6], 16, seed, weight=3) + \
+                   sharded("native-dbg", "indices", ["--shim", "shadow", "--max-chars", 5], 16, seed + 1, weight=3) + \
+                   [eng("asan", "indices", ["--max-chars", 4], 1, seed + 7, weight=4)]
+        jobs += sharded("miri", "indices", ["--max-chars", 2, "--sample-pct", 12 if quick else 100], 16, seed + 2, **MT)
+        jobs += [ex("native-rel", "errorpath", 500 if quick else 20000, 120, 4, seed + 4, weight=2),
+                 ex("native-rel", "sharing", 500 if quick else 20000, 120, 4, seed + 5, weight=2)]
+        p["jobs"] = jobs
+    elif n == 8:
+        jobs = [eng("native-rel", "clones", ["--shim", "shadow"], 1, seed, weight=3),
+                eng("native-dbg", "clones", ["--shim", "shadow", "--max-big-len", 1 << 20], 1, seed + 1, weight=3)]
+        jobs += sharded("miri", "clones", ["--max-big-len", 65536], 16, seed + 2, **MT)
+        jobs += explore_mix(["sharing", "static", "default"], tier, seed + 3, q_hist=800, miri=False)
+        p["jobs"] = jobs
+    elif n == 9:
+        jobs = [eng("native-rel", "construct", ["--shim", "shadow", "--reps", 4 if quick else 40], 1, seed, weight=3),
+                eng("native-dbg", "construct", ["--shim", "shadow", "--reps", 2 if quick else 10], 1, seed + 1, weight=3)]
+        jobs += sharded("miri", "construct", ["--reps", 1], 24 if quick else 6, seed + 2, **MT)
+        jobs += explore_mix(["inline", "default"], tier, seed + 3, q_hist=1200, miri=False)
+        jobs += [ex("miri", "inline", 2 if quick else 12, 55, 4, seed + 5, **MT)]
+        p["jobs"] = jobs
+    elif n == 10:
+        p["jobs"] = explore_mix(["static"], tier, seed, q_hist=1500) + [
+            eng("native-rel", "eqclass", ["--shim", "shadow", "--rounds", 300], 2, seed + 7, weight=2),
+            eng("native-rel", "growth", ["--shim", "shadow", "--max-n", 1000], 1, seed + 8, weight=2)]
+    elif n == 11:
+        p["jobs"] = explore_mix(["fillcap", "default", "sharing"], tier, seed, q_hist=1000) + [
+            eng("native-rel", "growth", ["--shim", "shadow", "--max-n", 100000], 1, seed + 8, weight=2),
+            eng("native-dbg", "growth", ["--shim", "shadow", "--max-n", 10000], 1, seed + 9, weight=2)]
+    elif n == 12:
+        p["jobs"] = [eng("native-rel", "growth", ["--shim", "shadow"], 1, seed, weight=3),
+                     eng("native-dbg", "growth", ["--shim", "shadow", "--max-n", 1000000], 1, seed + 1, weight=3)] + \
+            explore_mix(["fillcap", "default", "static"], tier, seed + 2, q_hist=1000, miri=False) + \
+            sharded("miri", "growth", ["--max-n", 64], 16 if quick else 24, seed + 3, mod=48 if quick else 24, **MT)
+    elif n == 13:
+        p["jobs"] = [eng("native-rel", "shrink", ["--shim", "shadow"], 1, seed, weight=3),
+                     eng("native-dbg", "shrink", ["--shim", "shadow"], 1, seed + 1, weight=3)] + \
+            explore_mix(["shrink", "sharing"], tier, seed + 2, q_hist=1500, miri=False) + \
+            sharded("miri", "shrink", [], 16, seed + 3, mod=160 if quick else 32, **MT)
+    elif n == 14:
+        p["rule"] = ("x.to_lean_string().as_bytes() vs core::fmt::Display written into a stack buffer, for all 24 integer types (12 primitive + NonZero): EVERY value of the 8- and 16-bit types (thorough: also every value of i32/u32 in release and in the debug-assertion+opt build); for the others every 10^k and 2^k with +-3 neighbours and both signs, type extremes +-3, plus seeded random values stratified so every digit count gets an equal share; is_heap_allocated() == (text longer than 16 bytes). Miri runs the boundary set per type (out-of-bounds digit writes are UB before they are a wrong string). distinct_nontrivial = distinct (type, digit count, sign) cells observed")
+        jobs = [eng("native-rel", "ints", ["--shim", "off", "--threads", 16, "--random", 8000000 if quick else 200000000] + ([] if quick else ["--exhaustive32"]), 1, seed, weight=5, timeout=3000),
+                eng("relassert", "ints", ["--shim", "shadow", "--threads", 16, "--random", 1000000 if quick else 20000000] + ([] if quick else ["--exhaustive32"]), 1, seed + 1, weight=5, timeout=6000),
+                eng("native-dbg", "ints", ["--shim", "shadow", "--threads", 16, "--random", 400000], 1, seed + 2, weight=3)]
+        for i, t in enumerate(["i8", "u8", "i16", "u16", "i32", "u32", "i64", "u64", "isize", "usize", "i128", "u128"]):
+            if t in ("i8", "u8", "i16", "u16"):
+                continue
+            jobs.append(eng("miri", "ints", ["--only", t, "--random", 0] + (["--kstep", 3] if (quick and "128" in t) else []), 1, seed + 10 + i, label="miri", **MT))
+        if not quick:
+            for i, t in enumerate(["i32", "i64", "isize", "usize", "u128"]):
+                jobs.append(eng("miri-i686", "ints", ["--only", t, "--random", 0], 1, seed + 30 + i, label="miri-i686", **MT))
+                jobs.append(eng("miri-be", "ints", ["--only", t, "--random", 0], 1, seed + 40 + i, label="miri-powerpc64-be", **MT))
+        p["jobs"] = jobs
+    elif n == 15:
+        p["rule"] = ("to_lean_string()/try_to_lean_string() vs to_string() for both bools, EVERY char, generated Strings, LeanStrings in inline/static/heap storage, &str/Box<str>/fmt::Arguments/Wrapping (generic arm), scripted Display impls writing 0-6 pieces through write_str/write!/write_char/padding with an error injected after every piece position (must give Err(Fmt), never a partial string); f32/f64: text must parse back to identical bits (NaN to NaN): every exponent x sampled mantissas + specials (thorough: ALL 2^32 f32 patterns), f64 every exponent x fixed mantissas + random patterns. distinct_nontrivial = specialisation arms / cells with executions; an arm with zero executions makes the run inconclusive")
+        jobs = [eng("native-rel", "tls", ["--shim", "off", "--threads", 16, "--f64-random", 4000000 if quick else 200000000] + ([] if quick else ["--f32-exhaustive", "--strings", 400000, "--scripts", 60000]), 1, seed, weight=5, timeout=6000),
+                eng("native-dbg", "tls", ["--shim", "shadow", "--threads", 16, "--char-stride", 7, "--f32-mantissas", 64, "--f64-random", 200000, "--strings", 4000, "--scripts", 600], 1, seed + 1, weight=3)]
+        jobs += [eng("miri", "tls", ["--char-stride", 30011, "--strings", 12, "--scripts", 8, "--f64-random", 60, "--f32-mantissas", 1], 8, seed + 2, **MT)]
+        p["jobs"] = jobs
+        p["require_cells"] = ["arm:bool", "arm:char", "arm:String", "arm:LeanString", "arm:generic", "arm:f32", "arm:f64", "generic_fmt_error_positions"]
+    elif n == 16:
+        p["rule"] = ("from_utf8/from_utf8_lossy/from_utf16/from_utf16_lossy vs their String counterparts (acceptance and text; error values not compared) on ALL sequences up to the stated length over the 16-symbol class alphabet and the 25-symbol extended alphabet, the same sequences embedded after 12/15/16/17-byte valid prefixes (decoder state straddles the inline limit and the with_capacity(buf.len()) guess), all u16 sequences over {0,41,D7FF,D800,DBFF,DC00,DFFF,E000,FFFD,FFFF}, plus long nearly-valid inputs made by mutating valid text. distinct_nontrivial = distinct (outcome class, length) cells")
+        jobs = [eng("native-rel", "utf", ["--shim", "off", "--threads", 16] + (["--min-alpha-len", 5, "--ext-alpha-len", 4, "--u16-len", 5, "--long", 200000] if quick else ["--min-alpha-len", 7, "--ext-alpha-len", 6, "--u16-len", 6, "--prefixed-len", 5, "--long", 3000000]), 1, seed, weight=5, timeout=10000),
+                eng("native-rel", "utf", ["--shim", "shadow", "--threads", 1, "--min-alpha-len", 3, "--ext-alpha-len", 2, "--u16-len", 3, "--prefixed-len", 3, "--long", 20000], 4, seed + 1, weight=3, label="native-rel(shadow-heap)"),
+                eng("native-dbg", "utf", ["--shim", "shadow", "--threads", 16, "--min-alpha-len", 4, "--ext-alpha-len", 3, "--u16-len", 4, "--long", 20000], 1, seed + 2, weight=3)]
+        jobs += [eng("miri", "utf", ["--min-alpha-len", 2, "--ext-alpha-len", 1, "--u16-len", 2, "--prefixed-len", 1, "--long", 12 if quick else 200], 4, seed + 3, **MT)]
+        p["jobs"] = jobs
+        p["exhaustive_when"] = "utf"
+    elif n == 17:
+        p["jobs"] = explore_mix(["default", "sharing", "static"], tier, seed, q_hist=500, miri=False) + [
+            eng("native-rel", "eqclass", ["--shim", "shadow", "--rounds", 2000 if quick else 200000], 8, seed + 3, weight=3),
+            eng("native-dbg", "eqclass", ["--shim", "shadow", "--rounds", 300 if quick else 20000], 4, seed + 4, weight=3),
+            eng("miri", "eqclass", ["--rounds", 1 if quick else 6], 16, seed + 5, **MT)]
+        for j in p["jobs"]:
+            if j["engine"] == "explore":
+                j["args"] += ["--cmp-every", "3"]
+    elif n == 18:
+        jobs = [eng("native-rel", "panics", ["--shim", "shadow", "--rounds", 8 if quick else 400], 8, seed, weight=3),
+                eng("native-dbg", "panics", ["--shim", "shadow", "--rounds", 2 if quick else 40], 4, seed + 1, weight=3)]
+        jobs += sharded("miri", "panics", ["--rounds", 1], 48 if quick else 12, seed + 2, **MT)
+        if not quick:
+            jobs += [eng("memcheck", "panics", ["--rounds", 2], 4, seed + 3, weight=5, timeout=6000),
+                     eng("asan", "panics", ["--rounds", 10], 4, seed + 4, weight=4)]
+        jobs += [ex("native-rel", "errorpath", 500 if quick else 30000, 120, 4, seed + 5, weight=2)]
+        p["jobs"] = jobs
+        p["rule"] = ("for each target state (inline empty/short/16, static, static truncated, heap unique/spare/shared same/shorter/longer) x each callback-driven op (retain; extend and collect with 7 item types; to_lean_string of a Display type) x generated texts: EVERY panic position k = 1..=(number of callback invocations) is executed under catch_unwind, the String model runs the same panicking callback, then all monitors run (text == String's, other handles unchanged, refcounts, heap accounting incl. no leaked block for results that never existed) and the case ends with every handle dropped and an empty heap. distinct_nontrivial = distinct (op, state, k-class first/middle/last) cells")
+    elif n == 19:
+        p["rule"] = ("harness built with lean_string features serde+arbitrary: serde_json text and the exact sequence of Serializer calls (recording serializer) vs String; Deserialize through StrDeserializer, BorrowedStrDeserializer, StringDeserializer, into_deserializer, serde_json from_str/from_slice/from_reader (incl. hand-written \\u escapes and surrogate pairs), BytesDeserializer and BorrowedBytesDeserializer on every sequence up to the stated length over the UTF-8 class alphabet (plus 15-byte prefixes and long mutated inputs) vs String's Deserialize (and Ok <=> valid UTF-8); arbitrary/arbitrary_take_rest/size_hint vs <&str> on the same Unstructured bytes incl. bytes consumed. distinct_nontrivial = distinct entry points exercised")
+        jobs = [eng("cfg-all-rel", "serde", ["--shim", "shadow", "--strings", 30000 if quick else 1000000, "--bytes-len", 4 if quick else 5, "--arbitrary", 200000 if quick else 5000000, "--long", 30000 if quick else 1000000], 4, seed, weight=3, timeout=6000),
+                eng("cfg-all-dbg", "serde", ["--shim", "shadow", "--strings", 3000, "--bytes-len", 3, "--arbitrary", 20000, "--long", 3000], 2, seed + 1, weight=3),
+                eng("miri-all", "serde", ["--strings", 6, "--bytes-len", 1, "--arbitrary", 30, "--long", 6], 8, seed + 2, **MT)]
+        p["jobs"] = jobs
+        p["assumptions"] += ["only the (de)serializers available offline are used: serde_json and serde::de::value"]
+    elif n == 20:
+        jobs = []
+        cfgs = ["native-rel", "native-dbg", "cfg-nodefault-rel", "cfg-nodefault-dbg", "cfg-all-rel", "cfg-all-dbg"]
+        for prof in ["default", "sharing", "errorpath"]:
+            for fl in cfgs:
+                j = ex(fl, prof, 250 if quick else 8000, 120, 4, seed, extra=["--digest"], weight=2, group="digest-" + prof)
+                jobs.append(j)
+        jobs += [ex("miri", "default", 2, 55, 4, seed + 1, **MT)]
+        jobs += [eng("native-rel", "construct", ["--shim", "shadow", "--reps", 2], 1, seed + 2, weight=2),
+                 eng("cfg-nodefault-rel", "construct", ["--shim", "shadow", "--reps", 2], 1, seed + 2, weight=2)]
+        if not quick:
+            jobs += [ex("asan", "default", 3000, 120, 4, seed + 3, weight=3), ex("asan", "errorpath", 3000, 120, 4, seed + 4, weight=3)]
+        p["jobs"] = jobs
+        p["digest_groups"] = True
+        p["build_failure_is_violation"] = True
+        p["assumptions"] += ["the no_std configuration is exercised from a std harness binary: the crate under test is built without its std feature, which is what the property is about"]
     else:
         return None
     for j in p["jobs"]:
-        if j["engine"] == "explore":
+        if j["engine"] == "explore" or True:
             j["args"] += ["--stat-props", str(n)]
     return p
+
+
+RULE_C04 = ("random programs from the property's grammar: one heap buffer (17-64 bytes, optional spare capacity), 2-3 threads (the main thread is one of them) each owning a clone (optionally pre-truncated) or borrowing &LeanString, each running 1-4 ops from {clone, clone_from, to_lean_string, drop, read, push, push_str, insert, insert_str, remove, retain, truncate, pop, clear, reserve, shrink_to}; released from one start barrier; yields injected at the hook points between the uniqueness test / decrement and the access they guard. Oracle for races/UAF/leaks: Miri (vector clocks + weak-memory emulation), several -Zmiri-seed and preemption rates; oracle for values: one String model per thread; exactly-once release: alloc count == dealloc count after all handles are dropped. evaluations = executions; distinct_nontrivial = distinct observed interleavings, i.e. distinct sequences of (thread, hook site) per program as recorded by the Relaxed trace log")
 
 
 def _strip(args, keys):
@@ -175,6 +299,7 @@ def aggregate(prop, plan, results):
     reports = []
     extra_cov = {}
     total = len(results)
+    digests = {}
     for r in results:
         job = r["job"]
         fl = job.get("label", job["flavour"])
@@ -227,6 +352,8 @@ def aggregate(prop, plan, results):
             bf["shards_ok"] += 1
         for s in stat:
             cov = s.get("cov")
+            if cov and job.get("group") and not vl:
+                digests.setdefault((job["group"], r["shard"]), {})[job["flavour"]] = (cov.get("digest"), cov.get("steps"), base_args, r["seed"])
             if cov:
                 bf["steps"] += cov.get("steps", 0)
                 for pc in cov.get("props", []):
@@ -266,9 +393,27 @@ def aggregate(prop, plan, results):
                         extra_cov[key].append(ec["exhaustive_scope"])
             if "swallowed_hint_failures" in s:
                 counters["hint_reservation_failures_ignored_by_design"] = counters.get("hint_reservation_failures_ignored_by_design", 0) + s["swallowed_hint_failures"]
+    if plan.get("digest_groups"):
+        ngroups = 0
+        for (g, sh), m in sorted(digests.items()):
+            vals = set(v[0] for v in m.values())
+            ngroups += 1
+            if len(vals) > 1:
+                any_fl = sorted(m)[0]
+                viols.append({
+                    "property": prop, "engine": "explore", "flavour": any_fl, "seed": m[any_fl][3], "monitor": "cross-config-digest",
+                    "message": "observable trace digest differs between configurations for %s shard %d: %s" % (g, sh, {k: v[0] for k, v in m.items()}),
+                    "args": m[any_fl][2], "signature": "cross-config-digest:%s" % g,
+                })
+        counters["configurations_compared"] = max((len(m) for m in digests.values()), default=0)
+        counters["digest_groups_compared"] = ngroups
+        extra_cov["configuration_digests_sample"] = {("%s/%d" % k): {fl: v[0] for fl, v in m.items()} for k, m in list(sorted(digests.items()))[:3]}
+    missing = [c for c in plan.get("require_cells", []) if counters.get("cell:" + c, 0) == 0]
+    if missing:
+        inconc.append({"flavour": "-", "seed": 0, "reason": "required cells never executed: %s" % missing, "fatal": True})
     fatal = len(inconc) * 2 > total
     for i in inconc:
-        i["fatal"] = fatal
+        i["fatal"] = i.get("fatal", False) or fatal
     unreached = []
     coverage = {
         "evaluations": evals,
@@ -285,8 +430,9 @@ def aggregate(prop, plan, results):
     if matrix:
         coverage["matrix"] = dict(sorted(matrix.items()))
     coverage.update(extra_cov)
-    if plan.get("exhaustive"):
+    if extra_cov.get("exhaustive_parts"):
         coverage["exhaustive"] = True
+        coverage["exhaustive_scope"] = "ONLY these finite tables were enumerated completely (everything else is sampled): " + " | ".join(extra_cov["exhaustive_parts"])
     return {"violations": viols, "coverage": coverage, "inconclusive": inconc}
 
 
